@@ -29,6 +29,7 @@ ASSUMPTIONS = [
     "generated mini-scenarios (switched LAN; host-router-server) built by the real PrimaiteGame.from_config with an "
     "action map holding every maskable host action type x the components of client_1, actions naming missing "
     "components, and (routed) router ACL/port actions",
+    "the action map is also listed in descending and shuffled key order (same numbering): mask entry i must describe action i",
     "pre-state: client_1 power state over all 4 members (driven there by the real power API), its services and "
     "applications overwritten with every member of the real operating-state enums (incl. RESTARTING/INSTALLING), NIC "
     "flag, file/folder live or deleted via the real file-system API; no reachability restriction (the equality "
@@ -39,13 +40,13 @@ ASSUMPTIONS = [
 FILE_STATES = ["live", "file_deleted", "folder_deleted"]
 
 
-def mask_vs_exec(ai: int, ns: int, svc_state: int, app_state: int, nic_en: bool, fstate: int, kind: str = "switched", couple: bool = False, via_env: bool = False):
+def mask_vs_exec(ai: int, ns: int, svc_state: int, app_state: int, nic_en: bool, fstate: int, kind: str = "switched", couple: bool = False, via_env: bool = False, order: str = "asc"):
     from primaite.simulator.system.applications.application import ApplicationOperatingState
     from primaite.simulator.system.services.service import ServiceOperatingState
 
     with concrete():
         quiet()
-        cfg = mini_scenario(kind, with_green=False, with_red=False, action_masking=True)
+        cfg = mini_scenario(kind, with_green=False, with_red=False, action_masking=True, action_order=order)
         if via_env:
             from primaite.session.environment import PrimaiteGymEnv
 
@@ -124,8 +125,10 @@ HARNESSES = {
     "mask_vs_exec": {
         "fn": mask_vs_exec,
         "quick": [{"fixed": {"kind": "switched", "ns": n, "couple": True}, "timeout": 280} for n in range(4)]
-        + [{"fixed": {"kind": "routed", "ns": 0, "couple": True, "fstate": 0, "via_env": True}, "timeout": 280}],
-        "thorough": [{"fixed": {"kind": k, "ns": n, "fstate": f}, "timeout": 1500} for k in ("switched", "routed") for n in range(4) for f in range(3)],
+        + [{"fixed": {"kind": "routed", "ns": 0, "couple": True, "fstate": 0, "via_env": True}, "timeout": 280}]
+        + [{"fixed": {"kind": "switched", "ns": 0, "couple": True, "fstate": 0, "order": o, "svc_state": 0}, "timeout": 280} for o in ("desc", "shuffled")],
+        "thorough": [{"fixed": {"kind": k, "ns": n, "fstate": f}, "timeout": 1500} for k in ("switched", "routed") for n in range(4) for f in range(3)]
+        + [{"fixed": {"kind": "routed", "ns": n, "fstate": 0, "order": o}, "timeout": 1500} for n in (0, 2) for o in ("desc", "shuffled")],
         "cover": ["reached", "turned_away"],
         "bounds": {
             "quick": "every entry of the action map (54) x 4 power states x 6 coupled (service, application) states x NIC flag x 3 file states; routed topology (66 actions) with node ON through PrimaiteGymEnv.action_masks",
